@@ -280,19 +280,42 @@ def field_feeds_worklist(F, gc, field):
             p = op_place(a)
             if p is not None and place_tainted(p):
                 return True
-    # control: a switch on a tainted value whose (non-join) successor dominates a push
+    # control: the push is control-dependent (directly, or through further decisions) on a switch over a tainted value:
+    # some successor of the switch leads to the push on every path while the switch itself does not (so the code after a
+    # loop whose exit test reads the field does not count as fed by the field)
+    rets = cfg.return_blocks()
+    push_blocks = set(bi for bi, _t in pushes)
+
+    def dependents(sb):
+        t = blocks[sb]["term"]
+        succs = set([tb for _v, tb in t["targets"]] + [t["otherwise"]])
+        out = set()
+        for s_ in succs:
+            for b in cfg.reach:
+                if b in out or not cfg.dominates(s_, b):
+                    continue
+                if cfg.every_path_passes(s_, rets, {b}) and not cfg.every_path_passes(sb, rets, {b}):
+                    out.add(b)
+        return out
+
     for sb, b in enumerate(blocks):
         t = b["term"]
-        if t["k"] != "switch":
+        if t["k"] != "switch" or sb not in cfg.reach:
             continue
         p = op_place(t["discr"])
         if p is None or not place_tainted(p):
             continue
-        succs = [tb for _v, tb in t["targets"]] + [t["otherwise"]]
-        for s_ in set(succs):
-            for bi, _t in pushes:
-                if cfg.dominates(s_, bi) and not all(cfg.dominates(x, bi) or x == s_ for x in set(succs)):
+        seen, work = set(), [sb]
+        while work:
+            x = work.pop()
+            for d in dependents(x):
+                if d in seen:
+                    continue
+                seen.add(d)
+                if d in push_blocks:
                     return True
+                if blocks[d]["term"]["k"] == "switch":
+                    work.append(d)
     return False
 
 
@@ -1176,15 +1199,19 @@ def run_arm_of_block(F):
     from rules.c10 import run_dispatch
     fn, sw, targets, header = run_dispatch(F)
     cfg = fn.cfg
-    saved = cfg.succ[header]
-    cfg.succ[header] = []
+    # the dispatch may sit in a loop (arms end at the loop header) or in a function of its own that the driver loop calls
+    # (no header: arms end at the return)
+    saved = cfg.succ[header] if header is not None else None
+    if header is not None:
+        cfg.succ[header] = []
     out = {}
     try:
         for v, tb in targets.items():
             for b in cfg.reachable_from(tb):
                 out.setdefault(b, v)
     finally:
-        cfg.succ[header] = saved
+        if header is not None:
+            cfg.succ[header] = saved
     return fn, out
 
 
